@@ -211,7 +211,7 @@ CHECKS = {
                 "recording RendererInterface (matplotlib replaced by name-only stub modules) on the C04 program corpus (device calls, parallel "
                 "groups, five gate kinds with distinct parameters, fills, measurements, loops, branches, subroutines; compiled with and without "
                 "spec) and its call list is compared with the model applied to the event log of the independent event executor; the dispatch "
-                "table statement -> renderer method/argument order is reflected each run.",
+                "table statement -> renderer method/argument order is reflected each run. On every run initialize and the handlers of visualizer/impl/*.py are translated from source (fail-closed) and proved equal to the model's vis_event / vis_init.",
         "note": NOTE_COMMON + " The matplotlib renderer itself is not exercised; auto groups / multi-region measure cannot be executed by any executor on this tree.",
         "technique": "Coq homomorphism proofs + reflected dispatch table + correspondence of PathVisualizer with a recording renderer",
     },
